@@ -4,6 +4,7 @@ import json, os, re, glob
 EXTRA = {  # cross-detections observed by hand (other checks that also catch the change)
  "C02-extend-drops-partition-from-deadline-queue": "caught by C04 quick (`deadline-queue-misses-partition`) and by C02 **thorough** (`expiration-not-processed` at the on-time expiration, 2044 cases / 19 min); the power symptom needs >= 210 days of chain time, which the quick tier does not generate",
  "C14-beneficiary-expiry-boundary": "also C13 (withdrawal probes)",
+ "C17-u64-cmp-limb": "also found by the libFuzzer target `evm_diff` from the committed seed corpus after 179 561 executions (the crash is written as an ordinary replay file and reproduces with `./check C17 --replay`); 500 000 executions on the unchanged tree stay silent",
 }
 rows = []
 for d in sorted(glob.glob('/verif/seeded/*/')):
